@@ -282,6 +282,50 @@ var mutators = []mutator{
 		m.insert(s, aliased("ma", "arg", v[1]...))
 		return true
 	}},
+	{"merge-across-parents", "5.3.2", func(m *mctx) bool {
+		// the two overlapping fields sit in selection sets with different parent types, at least one of
+		// which is not an object type (interface / implementing object, interface / interface, the same
+		// object through two inline fragments), inside an interface- or union-typed field; the fields
+		// have the same response shape, so only the name / argument / nested comparison can object
+		s := m.pickSet(func(s *gSet) bool { return m.visibleField(s, "named") && m.visibleField(s, "ab") })
+		if s == nil {
+			return false
+		}
+		I := graphql.IntType
+		n1, n2 := []gArg{{Name: "n", Val: "1", Type: I}}, []gArg{{Name: "n", Val: "2", Type: I}}
+		var a, b *gSel
+		switch m.r.Intn(4) {
+		case 0: // different fields
+			a, b = aliased("mp", "name"), aliased("mp", "nick")
+		case 1: // different arguments
+			a, b = aliased("mp", "nick", n1...), aliased("mp", "nick", n2...)
+		case 2: // nested: different fields beneath identical fields
+			a = &gSel{Kind: kField, Name: "friend", Args: n1, Sub: &gSet{Sels: []*gSel{aliased("x", "name")}}}
+			b = &gSel{Kind: kField, Name: "friend", Args: n1, Sub: &gSet{Sels: []*gSel{aliased("x", "nick")}}}
+		default: // different arguments on a field with a selection set
+			a = &gSel{Kind: kField, Name: "friend", Args: n1, Sub: &gSet{Sels: []*gSel{leaf("name")}}}
+			b = &gSel{Kind: kField, Name: "friend", Args: n2, Sub: &gSet{Sels: []*gSel{leaf("name")}}}
+		}
+		on := func(t string, f *gSel) *gSel { return &gSel{Kind: kInline, Cond: t, Sub: &gSet{Sels: []*gSel{f}}} }
+		var outer string
+		var sels []*gSel
+		switch m.r.Intn(6) {
+		case 0: // interface / implementing object
+			outer, sels = "named", []*gSel{a, on("Alpha", b)}
+		case 1: // implementing object / interface
+			outer, sels = "named", []*gSel{on("Beta", a), b}
+		case 2: // interface / the same interface through an inline fragment
+			outer, sels = "named", []*gSel{a, on("Named", b)}
+		case 3: // the same object type through two inline fragments
+			outer, sels = "named", []*gSel{on("Alpha", a), on("Alpha", b)}
+		case 4: // inside a union: interface / member object
+			outer, sels = "ab", []*gSel{on("Named", a), on("Alpha", b)}
+		default: // inside a union: member object / interface
+			outer, sels = "ab", []*gSel{on("Beta", a), on("Named", b)}
+		}
+		m.insert(s, &gSel{Kind: kField, Alias: "mpo", Name: outer, Sub: &gSet{Sels: sels}})
+		return true
+	}},
 	{"merge-twin-shapes", "5.3.2", func(m *mctx) bool {
 		tw := rng.Pick(m.r, []string{"t", "tl", "to", "tn", "tol", "ton"})
 		first, second := "Alpha", "Beta"
@@ -676,6 +720,26 @@ var mutators = []mutator{
 			return false
 		}
 		m.insert(s, aliased("uv", "arg", gArg{Name: "x", Val: "$undef"}))
+		return true
+	}},
+	{"undefined-variable-in-shared-fragment", "5.8.3", func(m *mctx) bool {
+		// a fragment shared by several operations uses a variable that one of them (not the first
+		// to spread it) does not declare
+		part := (&gen{w: m.w, r: m.r, doc: m.d}).shareVariables()
+		if len(part) < 2 {
+			return false
+		}
+		op := part[1+m.r.Intn(len(part)-1)]
+		// mostly both (so that no variable of that operation is left unused, which would be an
+		// error of its own), sometimes one
+		drop := rng.Pick(m.r, []string{"sv", "sw", "", "", ""})
+		var keep []*gVar
+		for _, v := range op.Vars {
+			if v.Name != drop && (drop != "" || (v.Name != "sv" && v.Name != "sw")) {
+				keep = append(keep, v)
+			}
+		}
+		op.Vars = keep
 		return true
 	}},
 	{"unused-variable", "5.8.4", func(m *mctx) bool {
